@@ -154,7 +154,7 @@ func runC06(c *LCase) (r c06Result) {
 		w.FsOp(s)
 	}
 	if c.Overflow > 0 {
-		overflowBurst("d0", c.Overflow)
+		overflowBurst(w.W, c.Overflow)
 		r.feats = append(r.feats, "close-with-error-pending")
 	}
 	pending, _ := engine.Fionread(w.Wfd)
